@@ -70,12 +70,17 @@ def check(case):
     res = CaseResult()
     prog = runcheck.resolve_faults(case["program"])
     normalize(prog)
-    proj = disk.Project(prog)
+    layout = case.get("layout") or {}
+    subdirs = dict((int(k), v) for k, v in (layout.get("subdirs") or {}).items())
+    names = dict((int(k), v) for k, v in (layout.get("names") or {}).items())
+    proj = disk.Project(prog, subdirs=subdirs, names=names)
     try:
         argv = disk.cli_args(prog.get("cfg") or {}) + ["--junit", "--junit-directory", "reports"]
         for name, value in (case.get("userdata") or {}).items():
             argv += ["-D", "behave.reporter.junit.%s=%s" % (name, "true" if value else "false")]
-        argv += ["-f", "null", "features"]
+        # the features directory, or every feature file by its own path (equally named files in different
+        # sub-directories are different features with different reports)
+        argv += ["-f", "null"] + (list(proj.feature_files) if layout.get("as_files") else ["features"])
         run = disk.run_inproc(proj, argv, prog)
         if run.escaped is not None:
             res.fail("C16.reporter-raises", "run with --junit raised %s: %s" % (type(run.escaped).__name__, run.escaped))
@@ -104,8 +109,15 @@ def check(case):
         floors = runcheck.status_floor(ref, prog)
         all_names = [i["name"] for _f, i in runcheck.instances(prog)]
         names_unique = len(set(all_names)) == len(all_names)
-        for fi, fobj in enumerate(run.features):
-            base = "TESTS-f%d.xml" % fi
+        by_file = dict((os.path.normpath(p), i) for i, p in enumerate(proj.feature_files))
+        if len(set(id(f) for f in run.features)) != len(run.features) or len(run.features) != len(prog["features"]):
+            res.fail("C16.features-run", "feature files %s, features run %s"
+                     % (proj.feature_files, [f.filename for f in run.features]))
+            return res
+        for fobj in run.features:
+            fi = by_file[os.path.normpath(fobj.filename)]
+            rel = os.path.relpath(proj.feature_files[fi], "features")
+            base = "TESTS-%s.xml" % rel.rsplit(".", 1)[0].replace(os.sep, ".")
             scenarios = [ran_object(s) for s in fobj.walk_scenarios()]
             if fobj.status.name == "skipped" and not show_skipped:
                 if base in reported:
@@ -188,6 +200,12 @@ def check(case):
             res.label("userdata:%s" % k)
         if not show_skipped:
             res.label("no-skipped")
+        if layout.get("subdirs"):
+            res.label("layout:sub-directory")
+        if layout.get("names"):
+            res.label("layout:equally-named-files")
+        if layout.get("as_files"):
+            res.label("layout:files-as-arguments")
         if prog.get("hook_faults"):
             res.label("hook-fault")
         if any(c.get("raises") for c in prog.get("cleanups", [])):
@@ -234,7 +252,12 @@ def case_st(draw):
                  "show_skipped_always"):
         if draw(st.integers(0, 5)) == 0:
             userdata[name] = draw(st.booleans())
-    return {"program": prog, "userdata": userdata, "hostile": hostile}
+    case = {"program": prog, "userdata": userdata, "hostile": hostile}
+    if len(prog["features"]) == 2 and draw(st.integers(0, 2)) == 0:
+        case["layout"] = {"subdirs": {"1": draw(st.sampled_from(["sub", "a/b"]))}, "as_files": draw(st.booleans())}
+        if draw(st.booleans()):
+            case["layout"]["names"] = {"1": "f0.feature"}      # the same base name in another directory
+    return case
 
 
 def id_suffix(prog, feat):
@@ -248,7 +271,8 @@ def explore(rec):
 
 def required_labels(tier):
     return ["hostile", "hostile-scenario-name", "failing-scenario", "no-skipped", "hook-fault", "raising-cleanup",
-            "userdata:show_skipped_always", "userdata:show_scenarios", "reports:2"]
+            "userdata:show_skipped_always", "userdata:show_scenarios", "reports:2", "layout:sub-directory",
+            "layout:equally-named-files", "layout:files-as-arguments"]
 
 
 KNOWN_PREDICATES = {}
